@@ -332,6 +332,10 @@ func c20Rules(p *core.Prog, r *core.Run) {
 	}
 	r.Check("C20.FRESHSNAP", "snapshot:refreshed", nSnap == 1, p.Pos(pub.Pos()), "the snapshot is refreshed after a successful write, so a target listed twice is written once (found %d refresh sites)", nSnap)
 
+	// what one publisher learned about its zones (also: "not found with this
+	// token") is its own
+	ownState(p, r, "C20.FRESHSNAP.own", Publish, "CloudflarePublisher", "zoneIDs")
+
 	// --- PAGES
 	c20Pages(p, r, gzd)
 }
